@@ -31,12 +31,14 @@ Theorem adjust_idempotent : forall F ds sq elv, contract F -> topo ds sq -> comp
 Proof. exact ElevSpec.adjust_idempotent. Qed.
 Print Assumptions adjust_idempotent.
 
-(* The 1-D fixer model (dem._adjust_elevation, statement by statement).  Proved for ALL profiles: *)
-Theorem fix1d_length : forall e, length (fix1d e) = length e.
+(* The 1-D fixer model (dem._adjust_elevation, statement by statement), parametrised by the cost function that selects
+   among the repairs (exact |a-b| for floats and signed integers, wrapping difference for unsigned element types: Elev.cost_of).
+   Proved for ALL profiles and ALL cost functions: *)
+Theorem fix1d_length : forall cost e, length (fix1d cost e) = length e.
 Proof. exact Fix1dSpec.fix1d_length. Qed.
 Print Assumptions fix1d_length.
 
-Theorem fix1d_identity_on_sorted : forall e, nonincr e -> fix1d e = e.
+Theorem fix1d_identity_on_sorted : forall cost e, nonincr e -> fix1d cost e = e.
 Proof. exact Fix1dSpec.fix1d_identity_on_sorted. Qed.
 Print Assumptions fix1d_identity_on_sorted.
 
@@ -47,35 +49,35 @@ Print Assumptions fix1d_identity_on_sorted.
    detector, with its stale reads z1 >= e[i-1], cannot miss a rise in the falling part), and each of the three repairs
    (dig, fill, dig-and-fill at every candidate level of the unique-descending scan) turns prefix + hump into a
    non-increasing prefix (Fix1dMono.v: fix_pit_ok, step_inv, last_step). *)
-Theorem fix1d_contract : contract fix1d.
+Theorem fix1d_contract : forall cost, contract (fix1d cost).
 Proof. exact Fix1dContract.fix1d_contract. Qed.
 Print Assumptions fix1d_contract.
 
-Theorem fix1d_contract_all : forall l lo hi, l <> [] -> (forall x, In x l -> lo <= x <= hi) ->
-  length (fix1d l) = length l /\ ninc (fix1d l) 0 (length l) /\
-  zn (fix1d l) (length l - 1) = zn l (length l - 1) /\ (forall k, (k < length l)%nat -> lo <= zn (fix1d l) k <= hi).
+Theorem fix1d_contract_all : forall cost l lo hi, l <> [] -> (forall x, In x l -> lo <= x <= hi) ->
+  length (fix1d cost l) = length l /\ ninc (fix1d cost l) 0 (length l) /\
+  zn (fix1d cost l) (length l - 1) = zn l (length l - 1) /\ (forall k, (k < length l)%nat -> lo <= zn (fix1d cost l) k <= hi).
 Proof. exact Fix1dMono.fix1d_contract_all. Qed.
 Print Assumptions fix1d_contract_all.
 
 (* hence, for dem.adjust_elevation itself (no hypothesis on the fixer): no cell lower than its downstream cell, cells
    outside the network untouched, values within the input range on the network, idempotent, conforming input unchanged *)
-Theorem adjust_elevation_spec : forall ds sq elv lo hi, topo ds sq -> complete ds sq -> length elv = length ds ->
+Theorem adjust_elevation_spec : forall cost ds sq elv lo hi, topo ds sq -> complete ds sq -> length elv = length ds ->
   (forall i, valid ds i -> lo <= zn elv i <= hi) ->
-  let out := adjust fix1d ds sq elv in
+  let out := adjust (fix1d cost) ds sq elv in
   length out = length elv /\
   (forall i, valid ds i -> dsf ds i <> i -> zn out (dsf ds i) <= zn out i) /\
   (forall i, ~ valid ds i -> zn out i = zn elv i) /\
   (forall i, valid ds i -> lo <= zn out i <= hi) /\
-  adjust fix1d ds sq out = out /\
+  adjust (fix1d cost) ds sq out = out /\
   ((forall i, valid ds i -> dsf ds i <> i -> zn elv (dsf ds i) <= zn elv i) -> out = elv).
 Proof. exact Fix1dContract.adjust_elevation_spec. Qed.
 Print Assumptions adjust_elevation_spec.
 
 (* (kept as an independent cross-check of the above by kernel evaluation: all 97 656 profiles of length <= 7 over {0..4}) *)
 Theorem fix1d_contract_bounded : forall l, l <> [] -> (length l <= 7)%nat -> Forall (fun x => 0 <= x <= 4) l ->
-  length (fix1d l) = length l /\ nonincr (fix1d l) /\
-  zn (fix1d l) (length l - 1) = zn l (length l - 1) /\
-  (forall lo hi, within lo hi l -> within lo hi (fix1d l)).
+  length (fix1d cost_exact l) = length l /\ nonincr (fix1d cost_exact l) /\
+  zn (fix1d cost_exact l) (length l - 1) = zn l (length l - 1) /\
+  (forall lo hi, within lo hi l -> within lo hi (fix1d cost_exact l)).
 Proof. exact Fix1dSpec.fix1d_contract_bounded. Qed.
 Print Assumptions fix1d_contract_bounded.
 
@@ -92,7 +94,10 @@ Print Assumptions dig_d4_spec.
 
 (* non-vacuity: a concrete run of the faithful models *)
 Example adjust_example :
-  adjust fix1d [1; 2; 2; 3; 3]%nat [2; 3; 1; 4; 0]%nat [5; 1; 7; 3; 4] = [7; 7; 7; 3; 4]
-  /\ fix1d [9; 4; 6; 5; 7; 2; 3; 1] = [9; 4; 4; 4; 4; 2; 2; 1]
+  adjust (fix1d cost_exact) [1; 2; 2; 3; 3]%nat [2; 3; 1; 4; 0]%nat [5; 1; 7; 3; 4] = [7; 7; 7; 3; 4]
+  /\ fix1d cost_exact [9; 4; 6; 5; 7; 2; 3; 1] = [9; 4; 4; 4; 4; 2; 2; 1]
+  (* with the wrapping cost of an unsigned 16-bit element type a different (still admissible) repair is selected *)
+  /\ fix1d cost_exact [7; 12; 10; 5; 2; 0] = [12; 12; 10; 5; 2; 0]
+  /\ fix1d (cost_of 65536) [7; 12; 10; 5; 2; 0] = [7; 7; 7; 5; 2; 0]
   /\ topo [1; 2; 2; 3; 3]%nat [2; 3; 1; 4; 0]%nat.
-Proof. split; [vm_compute; reflexivity|]. split; [vm_compute; reflexivity|]. apply check_topo_sound. vm_compute. reflexivity. Qed.
+Proof. split; [vm_compute; reflexivity|]. split; [vm_compute; reflexivity|]. split; [vm_compute; reflexivity|]. split; [vm_compute; reflexivity|]. apply check_topo_sound. vm_compute. reflexivity. Qed.
